@@ -124,10 +124,10 @@ Definition b2z (b : bool) : Z := if b then 1 else 0.
 (* zone equality layer: a zone is  class a b c  (see FacEq.zone_of) *)
 Definition zone_entry (args : list Z) : list Z :=
   match args with
-  | [c1; a1; b1; d1; e1; c2; a2; b2; d2; e2] =>
-      let x := zone_of c1 a1 b1 d1 e1 in
-      let y := zone_of c2 a2 b2 d2 e2 in
-      [b2z (zone_eq x y); b2z (zone_eq y x)]
+  | [c1; a1; b1; d1; e1; f1; g1; h1; i1; c2; a2; b2; d2; e2; f2; g2; h2; i2] =>
+      let x := zone_of c1 a1 b1 d1 e1 f1 g1 h1 i1 in
+      let y := zone_of c2 a2 b2 d2 e2 f2 g2 h2 i2 in
+      [b2z (zone_eq x y); b2z (zone_eq y x); b2z (zone_ne x y)]
   | _ => [-1]
   end.
 
